@@ -970,3 +970,79 @@ fn next_char_boundary(source: &str, start: usize) -> Option<usize> {
         None => Some(source.len()),
     }
 }
+
+/// Verification hooks: expose the private cropping helpers to the `__verif` module.
+#[cfg(serde_saphyr_verif)]
+pub(crate) mod verif {
+    use super::*;
+
+    pub(crate) fn crop_line(line: &str, left: usize, right: usize) -> (String, usize, usize) {
+        let (s, c) = crop_line_by_cols(line, left, right);
+        (s, c.start_byte, c.prefix_bytes)
+    }
+
+    pub(crate) fn crop_window(
+        window_text: &str,
+        window_start_row: usize,
+        error_row: usize,
+        error_col: usize,
+        crop_radius: usize,
+        local_start: usize,
+        local_end: usize,
+    ) -> (String, usize, usize) {
+        crop_window_text(
+            window_text,
+            window_start_row,
+            error_row,
+            error_col,
+            crop_radius,
+            local_start,
+            local_end,
+        )
+    }
+
+    pub(crate) fn col_to_byte(line: &str, col: usize) -> Option<usize> {
+        col_to_byte_offset_in_line(line, col)
+    }
+
+    pub(crate) fn line_col_to_byte(text: &str, row: usize, col: usize) -> Option<usize> {
+        let starts = line_starts(text);
+        line_col_to_byte_offset_with_starts(text, &starts, row, col)
+    }
+
+    pub(crate) fn starts(text: &str) -> Vec<usize> {
+        line_starts(text)
+    }
+
+    pub(crate) fn next_boundary(text: &str, start: usize) -> Option<usize> {
+        next_char_boundary(text, start)
+    }
+
+    pub(crate) fn fmt_window(
+        text: &str,
+        location: &Location,
+        start_line: Option<usize>,
+        msg: &str,
+        crop_radius: usize,
+    ) -> String {
+        struct D<'a>(&'a str, &'a Location, Option<usize>, &'a str, usize);
+        impl fmt::Display for D<'_> {
+            fn fmt(&self, f: &mut fmt::Formatter<'_>) -> fmt::Result {
+                let mapping = match self.2 {
+                    None => LineMapping::Identity,
+                    Some(start_line) => LineMapping::Offset { start_line },
+                };
+                fmt_snippet_window_with_mapping_or_fallback(
+                    f,
+                    &crate::localizer::DEFAULT_ENGLISH_LOCALIZER,
+                    self.1,
+                    self.0,
+                    mapping,
+                    self.3,
+                    self.4,
+                )
+            }
+        }
+        D(text, location, start_line, msg, crop_radius).to_string()
+    }
+}
